@@ -109,7 +109,7 @@ func check(prop, tier string) int {
 	var curReplay *ReplaySpec
 	violate := func(obName, reason, body string, found bool) {
 		violations++
-		path := filepath.Join(replayDir, sanitizeFile(obName)+".json")
+		path := filepath.Join(replayDir, sanitizeFile(obName+"."+reason)+".json")
 		rec := map[string]interface{}{"property": prop, "obligation": obName, "reason": reason, "solver_output": body, "failing_input_found": found}
 		if curReplay != nil {
 			rec["replay"] = curReplay
